@@ -49,6 +49,7 @@ func c06(c *Ctx) {
 	c06numaSplit(c)
 	c06entry(c)
 	c06take(c)
+	c06noSkip(c)
 
 	// ---- MIRROR
 	r.Rule("MIRROR: the effect sets of addPodAllocation and release over the receiver's fields have the same roots and dual operations (mapstore<->mapdelete, Insert<->delete, Add<->Subtract*, RefCount+1<->RefCount-1) on the same amount operand")
